@@ -88,9 +88,9 @@ def run(chk, replay):
     for e in entries:
         for p in plants:
             for sh in shapes:
-                # quick tier: the DAGStore methods go through the same three loaders (skeleton tie); they get every shape
+                # quick tier: the DAGStore methods go through the same three loaders (skeleton tie) and Load is the positive control; they get every shape
                 # in params / env / logDir and three representative shapes elsewhere
-                if (chk.tier == "quick" and not replay and e in ("UpdateSpec", "GetDetails", "List")
+                if (chk.tier == "quick" and not replay and e in ("UpdateSpec", "GetDetails", "List", "Load")
                         and p.get("root") not in ("Params", "Env", "LogDir") and sh not in ("bare", "dq-mid", "named-dq")):
                     continue
                 cases.append({"id": "%s|%s|%s|%s" % (e, p["path"], p["variant"], sh), "mode": "canary", "entry": e, "path": p["path"],
